@@ -11,8 +11,8 @@ def Local.nv (l : Local) : Local := { l with views := [] }
 theorem readAct_nv (t : Option Inode) (l : Local) (a : Act) : (readAct t l a).nv = readAct t l.nv a := by
   cases a <;> simp only [readAct, Local.nv] <;> (repeat' split) <;> (try simp_all [fail]) <;> (try omega)
 
-def SoloOK (ino : Inode) (l : Local) : Prop :=
-  ∃ n, (soloRun ino n l.nv).prog = [] ∧ (soloRun ino n l.nv).acc = observe ino true
+def SoloOK (ino : Inode) (head : Bool) (l : Local) : Prop :=
+  ∃ n, (soloRun ino n l.nv).prog = [] ∧ (soloRun ino n l.nv).acc = accOf ino head
 
 theorem soloRun_nil (ino : Inode) (n : Nat) (l : Local) (h : l.prog = []) : soloRun ino n l = l := by
   induction n with
@@ -25,7 +25,7 @@ def readKindHead (rq : Req) : Bool := rq.kind == .head
 inductive FdState (c : Cfg) (fs : FS) (rq : Req) (l : Local) : Prop where
   | fresh : l.prog = program c rq → l.acc = {} → l.result = none → l.fd = none → FdState c fs rq l
   | running (k : Nat) (ino : Inode) : l.fd = some k → fs.inodes[k]? = some ino → l.result = none →
-      .ropen ∉ l.prog → (∀ a ∈ l.prog, a.isReadAct = true) → l.prog ≠ [] → SoloOK ino l → FdState c fs rq l
+      .ropen ∉ l.prog → (∀ a ∈ l.prog, a.isReadAct = true) → l.prog ≠ [] → SoloOK ino (readKindHead rq) l → FdState c fs rq l
   | answered (k : Nat) (ino : Inode) : l.fd = some k → fs.inodes[k]? = some ino → l.prog = [] →
       l.result = some (.read (observe ino (readKindHead rq))) → FdState c fs rq l
   | failed : l.prog = [] → l.result = some .noSuchKey → l.fd = none → FdState c fs rq l
@@ -89,8 +89,8 @@ theorem execAct_byFd_read (c : Cfg) (rq : Req) (fs : FS) (l : Local) (a : Act) (
   | gettags => simp only [execAct, ht]; exact ⟨trivial, by rw [readAct_nv]; rfl⟩
   | _ => simp [Act.isReadAct] at ha
 
-theorem SoloOK_step {ino : Inode} {l l' : Local} {a : Act} {rest : List Act} (h : SoloOK ino l) (hp : l.prog = a :: rest)
-    (hl' : l'.nv = soloStep ino l.nv) : SoloOK ino l' := by
+theorem SoloOK_step {ino : Inode} {head : Bool} {l l' : Local} {a : Act} {rest : List Act} (h : SoloOK ino head l) (hp : l.prog = a :: rest)
+    (hl' : l'.nv = soloStep ino l.nv) : SoloOK ino head l' := by
   obtain ⟨n, h1, h2⟩ := h
   cases n with
   | zero => simp [soloRun, Local.nv, hp] at h1
@@ -170,7 +170,7 @@ theorem FdInv_step {c : Cfg} {s s' : State} {i : Nat} (hm : c.rmode = .byFd) (hk
         rw [soloStep_cons _ _ _ _ (by simp [Local.nv, hp] : l.nv.prog = a :: rest), readAct_some_result] at this
         have a3' : l.result = none := a3
         simpa [Local.nv, a3'] using this
-      have hsolo1 : SoloOK ino l1 := SoloOK_step a7 hp e2
+      have hsolo1 : SoloOK ino (readKindHead rq) l1 := SoloOK_step a7 hp e2
       have hsub : ∀ b ∈ l1.prog, b ∈ rest ∨ ∃ x, b = .getmeta x := by
         intro b hb
         rcases execAct_prog_sub c rq s.fs { l with prog := rest } a b (by rw [← hl1]; exact hb) with h1 | ⟨_, h2 | h2⟩ | ⟨h3, _⟩ | ⟨_, x, rfl⟩ | ⟨h5, _⟩
@@ -190,8 +190,8 @@ theorem FdInv_step {c : Cfg} {s s' : State} {i : Nat} (hm : c.rmode = .byFd) (hk
         rw [hnil, hres1]
         cases hkind : rq.kind <;> simp [hkind, Kind.isRead] at hrd
         · simp only [hfd1, Option.bind_some, hino', Option.map_some, h2]
-          simp [observe, readKindHead, hkind]
-        · simp only [h2]; simp [observe, readKindHead, hkind]
+          simp [accOf, observe, readKindHead, hkind]
+        · simp only [h2]; simp [accOf, observe, readKindHead, hkind]
       · have hfin : finalize rq s'.fs l1 = l1 := by
           unfold finalize
           cases hq : l1.prog with
